@@ -1310,3 +1310,8 @@ addresses: [192.0.2.53/24]
         network.prefixlen
     );
 }
+
+#[cfg(feature = "isomer_erbium_verif")]
+mod isomer_erbium_verif {
+    include!(concat!(env!("ISOMER_ERBIUM_VERIF_DIR"), "/dhcp_mod.rs"));
+}
